@@ -97,6 +97,18 @@ def build_w(case):
     for _ in range(int(mods.get("dup_rows", 0))):
         s, d = rng.integers(m, size=2)
         W[d, :] = W[s, :]
+    for _ in range(int(mods.get("prop_cols", 0))):        # proportional columns: two voxels seen with proportional path lengths
+        s_, d_ = rng.integers(n, size=2)
+        W[:, d_] = W[:, s_] * rng.uniform(0.2, 3.0)
+    for _ in range(int(mods.get("lincomb_cols", 0))):     # one column a combination of two others
+        s1, s2, d_ = rng.integers(n, size=3)
+        W[:, d_] = rng.uniform(0.2, 2.0) * W[:, s1] + rng.uniform(0.2, 2.0) * W[:, s2]
+    for _ in range(int(mods.get("prop_rows", 0))):
+        s_, d_ = rng.integers(m, size=2)
+        W[d_, :] = W[s_, :] * rng.uniform(0.2, 3.0)
+    for _ in range(int(mods.get("lincomb_rows", 0))):
+        s1, s2, d_ = rng.integers(m, size=3)
+        W[d_, :] = rng.uniform(0.2, 2.0) * W[s1, :] + rng.uniform(0.2, 2.0) * W[s2, :]
     if mods.get("colscale_dec", 0):
         W = W * 10.0 ** rng.uniform(-mods["colscale_dec"], mods["colscale_dec"], n)[None, :]
     if mods.get("rowscale_dec", 0):
@@ -404,3 +416,50 @@ def rep_family(rep):
     return {"int64": "int", "int32": "int", "uint8": "int", "bool": "bool", "float32": "float32", "list": "list",
             "F": "strided", "T": "strided", "view": "strided", "npfloat32": "float32", "npint64": "int",
             "pyint": "int"}.get(rep, rep)
+
+
+# ------------------------------------------------------------------------------------------------
+# reference minimum of |C x - d|^2 (rank-deficient systems: the minimiser is a subspace, so the OBJECTIVE is compared)
+# ------------------------------------------------------------------------------------------------
+
+def objective(C, d, x):
+    """|C x - d|^2 of the float64 vector x, evaluated in extended precision."""
+    r = C.astype(LD) @ np.asarray(x, dtype=float).astype(LD) - d.astype(LD)
+    return float(np.sum(r * r))
+
+
+def ls_reference(C, d, eps=EPS):
+    """Independent reference for min |C x - d|^2 from the SVD of C (numpy gesdd, own truncation).
+
+    Returns dict(f_ref, nx_lo, nC, nd):
+      f_ref : objective of the truncated-SVD solution that drops every singular value below 20x the LAPACK cut-off
+              max(M,N) * eps * s_max.  Any solver that keeps at least these directions reaches f <= f_ref (+ noise).
+      nx_lo : norm of the solution that keeps everything above 0.05x that cut-off: the largest solution norm a
+              legitimate truncation produces; it sets the evaluation noise of f for a float64 x."""
+    C = np.asarray(C, dtype=float)
+    d = np.asarray(d, dtype=float)
+    M, N = C.shape
+    nd = float(np.linalg.norm(d))
+    if C.size == 0 or not C.any():
+        return dict(f_ref=nd * nd, nx_lo=0.0, nC=0.0, nd=nd)
+    U, s, Vt = np.linalg.svd(C, full_matrices=False)
+    smax = float(s[0])
+    cut = max(M, N) * eps * smax
+    c = U.T @ d
+    with np.errstate(all="ignore"):
+        coef = np.where(s > 0, c / np.where(s > 0, s, 1.0), 0.0)
+    x_hi = Vt.T @ np.where(s > 20 * cut, coef, 0.0)
+    x_lo = Vt.T @ np.where(s > 0.05 * cut, coef, 0.0)
+    return dict(f_ref=objective(C, d, x_hi), nx_lo=float(np.linalg.norm(x_lo)), nC=smax, nd=nd, x_hi=x_hi)
+
+
+def objective_tolerance(ref, f_ref, nx, eps=EPS, rtol=1e-8):
+    """How far above f_ref the objective of a backward-stable solver's result may be evaluated.
+
+    A solver that returns the exact minimiser of a perturbed problem (C + dC, d + dd), |dC| <= e |C|, |dd| <= e |d|,
+    has |Cx - d| <= |r*| + e (|C| (|x| + |x*|) + 2 |d|)  (first order, rigorous); e = 1e-2 * rtol (1e-10 in double
+    precision, 1e-5 when a matrix is single precision).  Added: the noise of evaluating f at a float64 vector.  |x| enters
+    only up to 1e3 x the norm of the reference solution: a blown-up x must not buy itself tolerance."""
+    nxe = max(ref["nx_lo"], min(nx, 1e3 * ref["nx_lo"]))
+    rho = (1e-2 * rtol) * (ref["nC"] * (nxe + ref["nx_lo"]) + 2.0 * ref["nd"]) + 1e3 * eps * ref["nC"] * nxe
+    return 2.0 * np.sqrt(max(f_ref, 0.0)) * rho + rho * rho
